@@ -214,9 +214,9 @@ func urlStringsOf(c *smx509.Certificate) (out []string) {
 
 func pkAlgFor(kt int) x509.PublicKeyAlgorithm {
 	switch kt {
-	case kSM2, kP256, kP384:
+	case kSM2, kP256, kP384, kP224, kP521:
 		return x509.ECDSA
-	case kRSA, kRSAPSS:
+	case kRSA, kRSAPSS, kRSA1024, kRSA1024PSS:
 		return x509.RSA
 	}
 	return x509.Ed25519
@@ -357,12 +357,18 @@ func compareCert(s certSpec, tmpl *x509.Certificate, got *smx509.Certificate, de
 // substitutes returns public keys that are not the signer's: another key of
 // the same type and one key of every other type.
 func substitutes(signerKT int, seed uint64) []crypto.PublicKey {
-	out := []crypto.PublicKey{newKey(signerKT, seed+0x9e37, true).Public()}
+	signerPub := newKey(signerKT, seed, false).Public()
+	var out []crypto.PublicKey
+	for _, k := range []crypto.Signer{newKey(signerKT, seed+0x9e37, true)} {
+		out = append(out, k.Public())
+	}
 	for kt := 0; kt < nKeyTypes; kt++ {
-		if kt == signerKT || (kt == kRSAPSS) || (kt == kRSA && signerKT == kRSAPSS) {
+		if kt == signerKT || kt == kRSAPSS || kt == kRSA1024PSS {
 			continue
 		}
-		out = append(out, newKey(kt, seed+0x79b9, true).Public())
+		if pub := newKey(kt, seed+0x79b9, true).Public(); !pubEqual(pub, signerPub) && !pubEqual(pub, out[0]) {
+			out = append(out, pub)
+		}
 	}
 	return out
 }
@@ -457,7 +463,7 @@ func checkCertRoundTrip(c rtCase, r *h.Rec) error {
 			return err
 		}
 		signer, parent, parentSPKI = iss.key, iss.cert, iss.spki
-		subjPub = newKey(subjKT, c.Seed+1, signerKT == kRSA || signerKT == kRSAPSS).Public()
+		subjPub = subjectKey(subjKT, c.Seed+1, signer).Public()
 		parentArg = parent
 		if c.ParentX509 {
 			parentArg = parent.ToX509()
@@ -626,8 +632,11 @@ func genRTCase(rt *rapid.T, signerPool []int) rtCase {
 		Scribble:   rapid.IntRange(0, 2).Draw(rt, "scribble") > 0,
 		EmptyNil:   rapid.IntRange(0, 3).Draw(rt, "empty-not-nil") == 0,
 	}
-	if c.SubjKT == kRSAPSS {
-		c.SubjKT = kRSA // the same subject key; PSS is a property of the signature
+	switch c.SubjKT { // the same subject keys; PSS is a property of the signature
+	case kRSAPSS:
+		c.SubjKT = kRSA
+	case kRSA1024PSS:
+		c.SubjKT = kRSA1024
 	}
 	c.Spec = genCertSpec(rt)
 	return c
@@ -642,10 +651,14 @@ func TestC15_CertRoundTripSM2(t *testing.T) {
 
 func TestC15_CertRoundTripEC(t *testing.T) {
 	h.Prop(t, h.P{Name: "cert-roundtrip-ec", Quick: 400, Thorough: 8000},
-		func(rt *rapid.T) rtCase { return genRTCase(rt, []int{kP256, kP384, kEd25519, kP256, kEd25519}) }, checkCertRoundTrip)
+		func(rt *rapid.T) rtCase {
+			return genRTCase(rt, []int{kP256, kP384, kEd25519, kP224, kP521, kP256, kEd25519, kP224})
+		}, checkCertRoundTrip)
 }
 
 func TestC15_CertRoundTripRSA(t *testing.T) {
 	h.Prop(t, h.P{Name: "cert-roundtrip-rsa", Quick: 150, Thorough: 3000},
-		func(rt *rapid.T) rtCase { return genRTCase(rt, []int{kRSA, kRSAPSS}) }, checkCertRoundTrip)
+		func(rt *rapid.T) rtCase {
+			return genRTCase(rt, []int{kRSA, kRSAPSS, kRSA1024, kRSA1024PSS, kRSA, kRSAPSS})
+		}, checkCertRoundTrip)
 }
